@@ -10,7 +10,7 @@
 (* on the model; Trace_Stream checks the real reader against Messages).    *)
 (* Byte strings are atom sequences as in CoapWire.                         *)
 (***************************************************************************)
-EXTENDS CoapWire
+EXTENDS CoapWire, Bitwise
 
 \* header geometry from the first byte
 LenBytes(b0) == LET ln == b0 \div 16 IN IF ln < 13 THEN 0 ELSE IF ln = 13 THEN 1 ELSE IF ln = 14 THEN 2 ELSE 4
@@ -69,4 +69,38 @@ ObsFrom(items, i, acc) ==
             ELSE IF m.code \in {228, 229} THEN Append(acc, <<"closed">>)                        \* 7.04 Release / 7.05 Abort end the session
             ELSE ObsFrom(items, i + 1, acc)                                                     \* CSM, Pong, Empty, responses: nothing to observe
 Obs(w, max) == ObsFrom(Messages(w, max), 1, << >>)
+
+(* ---- CoAP over WebSockets (RFC 8323 section 8, framing of RFC 6455 section 5.2) ------------------------------- *)
+(* After the HTTP upgrade request (its length hl is given) the stream is a sequence of frames:                     *)
+(*   b0 = FIN|opcode, b1 = MASK|len7, [2 or 8 bytes extended length], [4 bytes masking key], payload               *)
+(* A client must mask; the only opcodes a CoAP endpoint takes are binary (2) and close (8); each binary frame      *)
+(* carries exactly one CoAP message (Len nibble 0); a frame longer than the receive buffer ends the session.       *)
+WsFrameMax == 1472
+Unmask(w, at, n, key) == [k \in 1..n |-> w[at + k - 1] ^^ key[((k - 1) % 4) + 1]]
+RECURSIVE WsFrom(_, _, _)
+WsFrom(w, i, acc) ==
+  IF i + 1 > Len(w) THEN acc                                                   \* fewer than two header bytes
+  ELSE IF ~Lits(w, i, 2) THEN Append(acc, <<"undecidable">>)
+  ELSE LET b0 == w[i]
+           b1 == w[i + 1]
+           op == b0 % 16
+           masked == b1 >= 128
+           l7 == b1 % 128
+           ext == IF l7 = 126 THEN 2 ELSE IF l7 = 127 THEN 8 ELSE 0
+           hl == 2 + ext + 4
+       IN IF ~masked THEN Append(acc, <<"close">>)                              \* 1002
+          ELSE IF i + hl - 1 > Len(w) THEN acc                                   \* header incomplete
+          ELSE IF ~Lits(w, i, hl) THEN Append(acc, <<"undecidable">>)
+          ELSE IF op # 2 THEN Append(acc, <<"close">>)                           \* close frame, or an opcode a CoAP endpoint does not take (1003)
+          ELSE LET big == l7 = 127 /\ \E k \in 2..7 : w[i + k] # 0            \* more than 16 bits of length
+                   n == IF l7 < 126 THEN l7 ELSE IF l7 = 126 THEN w[i + 2] * 256 + w[i + 3] ELSE w[i + 8] * 256 + w[i + 9]
+               IN IF big \/ n > WsFrameMax THEN Append(acc, <<"close">>)        \* 1009
+                  ELSE IF i + hl + n - 1 > Len(w) THEN acc                        \* payload incomplete
+                  ELSE IF ~Lits(w, i + hl, n) THEN Append(acc, <<"undecidable">>)
+                  ELSE LET key == SubSeq(w, i + hl - 4, i + hl - 1)
+                           d == DecWS(Unmask(w, i + hl, n, key))
+                       IN WsFrom(w, i + hl + n,
+                                 Append(acc, IF d.ok = "ok" THEN <<"msg", d.m>> ELSE IF d.ok = "bad" THEN <<"bad">> ELSE <<d.ok>>))
+WsMessages(w, hl) == IF Len(w) < hl THEN << >> ELSE WsFrom(w, hl + 1, << >>)
+ObsWS(w, hl) == ObsFrom(WsMessages(w, hl), 1, << >>)
 =============================================================================
